@@ -9,7 +9,7 @@ for c in $(git -C /repo log --format=%h --grep='^fix:' --reverse); do
   if git -C /repo show $c | git -C $WT apply -R 2>/dev/null; then
     echo "## $c $subj" >> $OUT
     for p in 01 02 03 04 05 06 07 08 09 10 11 12 13 14 15 16 17 18 19 20; do
-      VERIF_REPO=$WT /verif/check C$p > /tmp/_m.out 2>&1; rc=$?
+      VERIF_EVIDENCE_DIR=/tmp/ev_scratch VERIF_REPO=$WT /verif/check C$p > /tmp/_m.out 2>&1; rc=$?
       if [ $rc -ne 0 ]; then
         echo "  C$p exit=$rc" >> $OUT
         grep -E "^  key |^ANALYSIS-ERROR" /tmp/_m.out | head -4 | sed 's/^/    /' >> $OUT
